@@ -11,6 +11,7 @@ import (
 	"encoding/hex"
 	"fmt"
 	"math"
+	"math/big"
 	"sort"
 	"strconv"
 	"strings"
@@ -175,6 +176,26 @@ func (p *parser) value() any {
 		return p.mapv()
 	case p.eat("n"):
 		return nil
+	case p.eat("bg:"):
+		// a big.Int VALUE (as the decoder delivers integers beyond int64): hex magnitude, optional sign
+		neg := p.eat("-")
+		j := p.i
+		for j < len(p.s) && isHex(p.s[j]) {
+			j++
+		}
+		v, ok := new(big.Int).SetString(p.s[p.i:j], 16)
+		if !ok {
+			p.fail("big")
+		}
+		p.i = j
+		if neg {
+			v.Neg(v)
+		}
+		return *v
+	case p.eat("tg:"):
+		_, num := p.integer()
+		p.expect(":")
+		return cbor.Tag{Number: num, Content: p.value()}
 	case p.eat("tm:"):
 		// a time.Time value (seconds since the epoch, UTC): the CBOR encoder has its own options for it
 		neg, m := p.integer()
@@ -372,6 +393,13 @@ func dumpValue(v any) string {
 		return "n"
 	case time.Time:
 		return "tm:" + strconv.FormatInt(t.Unix(), 10)
+	case big.Int:
+		if t.Sign() < 0 {
+			return "bg:-" + new(big.Int).Neg(&t).Text(16)
+		}
+		return "bg:" + t.Text(16)
+	case cbor.Tag:
+		return "tg:" + strconv.FormatUint(t.Number, 10) + ":" + dumpValue(t.Content)
 	case int:
 		return "i:" + strconv.FormatInt(int64(t), 10)
 	case int8:
